@@ -72,6 +72,7 @@ type ServerStep struct {
 	ChunkDelay D    `json:"chunk_delay,omitempty"`
 	Code       int  `json:"code,omitempty"`    // gRPC status code (0 = OK)
 	PlainErr   bool `json:"plain_err,omitempty"` // gRPC: a non-status error
+	Wrapped    bool `json:"wrapped,omitempty"`   // gRPC: the status error arrives wrapped (fmt.Errorf with %w), as a handler or an inner interceptor annotating its errors returns it
 }
 
 type AdapterSpec struct {
@@ -494,12 +495,17 @@ func (w *adapterWorld) runHTTP() {
 type grpcReq struct{ ID int }
 type grpcReply struct{ N int }
 
-func (w *adapterWorld) grpcErr(st ServerStep) error {
+func (w *adapterWorld) grpcErr(st ServerStep) error { return scriptedGRPCErr(st) }
+
+func scriptedGRPCErr(st ServerStep) error {
 	if st.PlainErr {
 		return errC
 	}
 	if st.Code == 0 {
 		return nil
+	}
+	if st.Wrapped {
+		return fmt.Errorf("annotated: %w", status.Error(codes.Code(st.Code), "scripted"))
 	}
 	return status.Error(codes.Code(st.Code), "scripted")
 }
